@@ -17,7 +17,9 @@ RenameMailboxWithRemoteID), v0/tables.go (UNIQUE indexes on mailboxes.name, mail
 deleted_subscriptions.name, deleted_subscriptions.remote_id).  Core Lean only.
 
 Abstractions: as Model/Namespace.lean (one delimiter character, a connector that accepts every request,
-no mailbox-count limit, no messages: the recovery mailbox stays hidden).  The remote id the dummy
+no mailbox-count limit; the only messages are the marker messages the oracle APPENDs, counted per
+row (`msgs`): they follow the row through RENAME (the row keeps its ids), vanish with DELETE, and
+RENAME INBOX moves them to the new mailbox; the recovery mailbox never receives one and stays hidden).  The remote id the dummy
 connector invents for a mailbox created by an IMAP command (a UUID) is the abstract `i<k>` for the
 k-th such mailbox.  The connector's queued echo of an IMAP command is applied before the next
 command (the oracle flushes after every step), where it is a no-op.
@@ -31,6 +33,7 @@ structure Row where
   rid : String
   name : Name
   sub : Bool
+  msgs : Nat := 0                     -- messages in the mailbox (STATUS … (MESSAGES))
 deriving DecidableEq, Repr
 
 structure St where
@@ -122,7 +125,13 @@ def rename (d : Char) (S : St) (rawOld rawNew : Name) : Except Err St :=
   else
     let toCreate := (listSuperiors d newName).filter (fun s => !hasName S s)
     let S1 := toCreate.foldl addRow S
-    if oldName == inboxName then .ok (addRow S1 newName)
+    if oldName == inboxName then
+      -- renameInbox: new mailbox, INBOX stays; every message of INBOX moves to the new mailbox
+      let moved := ((rowByName S1 inboxName).map (·.msgs)).getD 0
+      let S2 := addRow S1 newName
+      .ok { S2 with rows := S2.rows.map fun r =>
+              if r.name = inboxName then { r with msgs := 0 }
+              else if r.name = newName then { r with msgs := moved } else r }
     else
       match renameRow S1 oldName newName with
       | .error e => .error e
@@ -147,6 +156,20 @@ def unsubscribe (d : Char) (S : St) (raw : Name) : Except Err St :=
   | some r =>
     if !r.sub then .error .alreadyUnsubscribed
     else .ok { S with rows := S.rows.map fun x => if x.rid == r.rid then { x with sub := false } else x }
+
+/-- handleAppend + State.AppendOnlyMailbox (a valid message, a connector that accepts it): one more
+    message in the named mailbox; a missing mailbox is `NO [TRYCREATE] no such mailbox`, the recovery
+    mailbox refuses (never generated by the oracle). -/
+def append (d : Char) (S : St) (raw : Name) : Except Err St :=
+  let name := decodeName d raw
+  if isRecovery name then .error (.ns .notAllowed)
+  else match rowByName S name with
+    | none => .error (.ns .noSuch)
+    | some r => .ok { S with rows := S.rows.map fun x => if x.rid == r.rid then { x with msgs := x.msgs + 1 } else x }
+
+/-- handleStatus (MESSAGES): the row the name resolves to (`decodeMailboxName` + GetMailboxByName) -/
+def statusOf (d : Char) (S : St) (raw : Name) : Option Nat :=
+  (rowByName S (decodeName d raw)).map (·.msgs)
 
 /-! ### connector updates (never answered; a failing update leaves the tables unchanged) -/
 
@@ -183,6 +206,7 @@ inductive Cmd where
   | rename (rawOld rawNew : Name)
   | subscribe (raw : Name)
   | unsubscribe (raw : Name)
+  | append (raw : Name)
   | kCreated (rid : String) (name : Name)
   | kDeletedRid (rid : String)
   | kDeletedName (name : Name)              -- the harness resolves the name to the remote id of the row
@@ -196,6 +220,7 @@ def step (d : Char) (S : St) : Cmd → St × Option (Except Err Unit)
   | .rename o n => match rename d S o n with | .ok S' => (S', some (.ok ())) | .error e => (S, some (.error e))
   | .subscribe n => match subscribe d S n with | .ok S' => (S', some (.ok ())) | .error e => (S, some (.error e))
   | .unsubscribe n => match unsubscribe d S n with | .ok S' => (S', some (.ok ())) | .error e => (S, some (.error e))
+  | .append n => match append d S n with | .ok S' => (S', some (.ok ())) | .error e => (S, some (.error e))
   | .kCreated rid n => (connCreated S rid n, none)
   | .kDeletedRid rid => (connDeleted S rid, none)
   | .kDeletedName n => match rowByName S n with
